@@ -84,7 +84,7 @@ class Gen:
                 "ow": rng.choice([0, 3, 3, 4]),
                 "k": rng.getrandbits(4),
                 "nonex": nonex,
-                "comb": rng.choice(["or", "sum"]) if nonex and iw else None,
+                "comb": rng.choice(["or", "sum", "cnt"]) if nonex and iw else None,
                 "single": False,
                 "val": None,
                 "ready": self.inp() if self.chance(f["p_ready"]) else None,
@@ -93,7 +93,8 @@ class Gen:
             if md["ow"]:
                 md["ret"] = self.inp(md["ow"]) if self.chance(0.7) else None
             if iw and self.chance(f["p_val"] * (0.6 if nonex else 1.0)):  # also on nonexclusive methods (validated per call)
-                md["val"] = rng.choice([["ne", rng.getrandbits(iw)], ["lt", rng.randint(1, (1 << iw) - 1)], ["bit0", rng.getrandbits(1)]])
+                md["val"] = rng.choice([["ne", rng.getrandbits(iw)], ["lt", rng.randint(1, (1 << iw) - 1)], ["bit0", rng.getrandbits(1)],
+                                        ["mask", rng.randint(2, (1 << iw) - 1)]])
             methods.append(md)
         self.methods = methods
         self.mdef = {m["id"]: m for m in methods}
@@ -198,6 +199,11 @@ class Gen:
                 n["arg"] = self.inp(md["iw"])
         if self.chance(f["p_en"]):
             n["en"] = self.inp()
+        elif self.chance(f.get("p_en_const", 0.08)):
+            # enable_call given as a compile-time constant (a Python feature flag, `i < n` in a generator loop):
+            # constant false still locks the callee and never activates the call; constant true is a plain call
+            n["en"] = rng.choice(["c0", "c0", "c0", "c1"])
+            n["enform"] = rng.randrange(3)
         return ["C", n]
 
     def stmts(self, callable_, depth, used, in_method, max_items=3, allow_nested=False):
@@ -282,6 +288,9 @@ class Gen:
         def cond1():
             if getattr(self, "datacond", False) and in_method is not None and in_method["iw"] and self.chance(0.6):
                 return f"d:{in_method['id']}:{rng.randrange(in_method['iw'])}"
+            if self.chance(0.2):  # a multi-bit expression as condition: true iff non-zero
+                w = rng.choice([2, 3])
+                return f"x:{self.inp(w)}:{rng.randint(2, (1 << w) - 1)}"
             return self.inp()
 
         if kind == "If":
@@ -411,6 +420,14 @@ def add_relations(rng, prog, feat):
             if rng.random() < 0.5:
                 x, y = y, x
             cands.insert(0, {"kind": "conflict", "a": x, "b": y, "prio": rng.choice(["U", "L", "R"])})
+    # a relation may be declared on a provide() alias of a method instead of the method itself
+    als = {}
+    for al in prog.get("aliases", []):
+        als.setdefault(a.resolve(al["id"]), []).append(al["id"])
+    for r in cands:
+        for side in ("a", "b"):
+            if r[side] in als and rng.random() < 0.3:
+                r[side] = rng.choice(als[r[side]])
     for r in cands:
         trial = copy.deepcopy(prog)
         trial["relations"].append(r)
